@@ -23,6 +23,7 @@ slots), `line_valid`, `base36_roundtrip` (ids of up to 1295 tempo points are dis
 (`lineKeys` covers every cell), and the text-level `denote ∘ render` bridge.
 -/
 import Reamber.Lemmas.FindLcm
+import Reamber.Props.C10
 import Reamber.Model.BMS
 import Reamber.Spec.BMS
 import Mathlib.Tactic.Ring
@@ -223,6 +224,93 @@ theorem slot_roundtrip (r : WRow) (nd : Nat) (hmet : r.snap.met = some 4) (hb : 
   push_cast at hexq
   field_simp
   linarith
+
+/-! ### times: what the writer's positions denote -/
+
+/-- **The positions the writer computes denote the in-memory times.**
+
+`cs` is a well-formed ascending tempo list starting at measure 0 beat 0, grid-compatible on the shipped grid of
+96 (tempo points on measure lines always are), `tmOf 0 cs` what the chart stores for it.  For EVERY list of
+times at or after the first tempo point (any order, duplicates), `TimingMap.snaps` as the model runs it (its own
+`stableArgsort`, the backwards sweep, `Snap.from_offset` with the `Snapper` of 96) succeeds, returns one position
+per time in the order of the times, and the by-the-book time `timeAt 0 cs` of each position is
+* within 1/192 beat — at the tempo in force — of the in-memory time, and
+* exactly the in-memory time when that time lies on the snap grid of its tempo segment. -/
+theorem write_positions (cs : List BcSnap) (hwf : wfChanges cs = true) (hs : sortedSnaps cs = true)
+    (h0 : firstAtZero cs = true) (hgc : gridCompatible (grid defaultMaxDiv) cs = true) (hm : metronomeOk cs = true)
+    (ts : List Rat) (hts : ∀ t ∈ ts, 0 ≤ t) :
+    ∃ F : Rat → Snap, snaps defaultGrid (tmOf 0 cs) ts = .ok (ts.map F) ∧
+      ∀ t ∈ ts, queryOk cs (F t) = true ∧
+        rabs (timeAt 0 cs (F t) - t) ≤ 1 / 192 * activeBeatLen 0 cs t ∧
+        (OnGridAt (grid defaultMaxDiv) 0 cs t → timeAt 0 cs (F t) = t) := by
+  have hg : GridOK defaultGrid := gridOK_grid (by decide)
+  have hgc' : gridCompatible defaultGrid.toList cs = true := by simpa [defaultGrid] using hgc
+  have hb := bcsOfBco_rederive hg 0 cs hwf hs h0 hgc' hm
+  cases cs with
+  | nil => simp [firstAtZero] at h0
+  | cons c rest =>
+    let F : Rat → Snap := fun t => ((snapAtAux defaultGrid 0 c rest t).toOption).getD default
+    have hF : ∀ t ∈ ts, lookupSnap defaultGrid ((c :: rest).zip (tmOf 0 (c :: rest))).reverse t = .ok (F t) ∧
+        queryOk (c :: rest) (F t) = true ∧
+        rabs (timeAt 0 (c :: rest) (F t) - t) ≤ 1 / 192 * activeBeatLen 0 (c :: rest) t ∧
+        (OnGridAt (grid defaultMaxDiv) 0 (c :: rest) t → timeAt 0 (c :: rest) (F t) = t) := by
+      intro t ht
+      obtain ⟨S, hS, hle, hb0, hback⟩ :=
+        timeAtAux_snapAtAux_err hg snap_err_default 0 c rest t hwf hs hgc' hm (hts t ht)
+      have hFt : F t = S := by simp [F, hS, Except.toOption]
+      refine ⟨?_, ?_, ?_, ?_⟩
+      · simp only [tmOf, List.zip_cons_cons]
+        rw [lookupSnap_eq_snapAtAux defaultGrid 0 c rest t hwf hs (hts t ht), hS, hFt]
+      · rw [hFt]; simp [queryOk, hle, hb0]
+      · rw [hFt]; exact hback
+      · intro hon
+        obtain ⟨hT, hgrid⟩ := hon
+        have hgrid' : onGridAux defaultGrid.toList 0 c rest t := by simpa [defaultGrid] using hgrid
+        obtain ⟨S', hS', _, _, hback'⟩ := timeAtAux_snapAtAux hg 0 c rest t hwf hs hm hT hgrid'
+        rw [hS] at hS'
+        injection hS' with e
+        rw [hFt, e]
+        exact hback'
+    refine ⟨F, ?_, fun t ht => (hF t ht).2⟩
+    exact snapsWith_order defaultGrid _ _ ts _ _ F hb (stableArgsort_sortsAscR ts) (fun t ht => (hF t ht).1)
+
+/-- **A written object denotes its in-memory time** (`write_positions` composed with `slot_roundtrip`): the slot
+`idx` of `nd` that the writer fills for an object at time `t` — in the line of the measure of its snap — lies, by
+the book, at a position whose time is `t` exactly when `t` is on the snap grid, and within 1/192 beat otherwise.
+`F` is the position function of `write_positions`; `nd` any positive multiple of the row's denominator
+(`newDens_dvd`). -/
+theorem written_slot_time (cs : List BcSnap) (F : Rat → Snap) (t : Rat) (ch v : Bytes) (nd : Nat)
+    (hmet : (F t).met = some 4) (hq : queryOk cs (F t) = true) (hnd : 0 < nd)
+    (hdvd : (slotOfRow ⟨F t, ch, v⟩).den ∣ nd) :
+    timeAt 0 cs ⟨(F t).measure, 4 * (((cellOf (slotOfRow ⟨F t, ch, v⟩) nd).idx : Nat) : Rat) / ((nd : Nat) : Rat), none⟩ =
+      timeAt 0 cs (F t) := by
+  have hb : 0 ≤ (F t).beat := by
+    cases cs with
+    | nil => simp [queryOk] at hq
+    | cons c rest =>
+      simp only [queryOk, Bool.and_eq_true, decide_eq_true_eq] at hq
+      exact hq.2
+  have := slot_roundtrip ⟨F t, ch, v⟩ nd hmet hb hnd hdvd
+  simp only at this
+  rw [this]
+  -- `timeAt` does not look at the metronome field of the query
+  cases cs with
+  | nil => rfl
+  | cons c rest =>
+    simp only [timeAt]
+    have hgen : ∀ (T : Rat) (cur : BcSnap) (l : List BcSnap) (a b : Snap), a.measure = b.measure → a.beat = b.beat →
+        timeAtAux T cur l a = timeAtAux T cur l b := by
+      intro T cur l
+      induction l generalizing T cur with
+      | nil => intro a b h1 h2; simp [timeAtAux, snapDist, h1, h2]
+      | cons n l ih =>
+        intro a b h1 h2
+        have hle : n.snap.le a = n.snap.le b := by simp [Snap.le, Snap.lt, Snap.eqv, h1, h2]
+        simp only [timeAtAux, hle, snapDist, h1, h2]
+        split
+        · exact ih _ _ a b h1 h2
+        · rfl
+    exact hgen 0 c rest _ _ rfl rfl
 
 /-! ### the slot fill -/
 
